@@ -347,21 +347,45 @@ def run(ctx) -> None:
     gb = idx.function(TET, "get_bands_below_range")
     r5.instance(gb.short)
     BS = Sem(idx, gb)
-    brets = [s_ for s_ in stmts(gb.node) if isinstance(s_, ast.Return) and s_.value is not None]
-    okb = len(brets) == 2
+    from ..sem import return_cases
+    bcases = return_cases(BS)
+    okb = len(bcases) == 2
     seen_forms = set()
-    for r_ in brets:
-        v_ = BS.resolve(r_.value, BS.cfg.node(r_))
+    ebm, emn = (gb.params[2] if len(gb.params) > 2 else "Ebandmax"), gb.params[0]
+
+    def positions_below(txt: str) -> bool:
+        """txt is np.where(Ebandmax < emin)[0] / np.nonzero(…)[0] / np.flatnonzero(…) (either orientation of the comparison)"""
+        e_ = ast.parse(txt, mode="eval").body
+        if isinstance(e_, ast.Subscript) and norm(e_.slice) == "0" and isinstance(e_.value, ast.Call) and call_name(e_.value) in ("np.where", "np.nonzero"):
+            e_ = e_.value
+        elif not (isinstance(e_, ast.Call) and call_name(e_) == "np.flatnonzero"):
+            return False
+        if len(e_.args) != 1 or not (isinstance(e_.args[0], ast.Compare) and len(e_.args[0].ops) == 1):
+            return False
+        c_ = e_.args[0]
+        l_, r_2, op_ = norm(c_.left), norm(c_.comparators[0]), type(c_.ops[0])
+        return (l_, r_2, op_) == (ebm, emn, ast.Lt) or (l_, r_2, op_) == (emn, ebm, ast.Gt)
+
+    def empty_test(t_: str, p_: bool) -> Optional[bool]:
+        """True: the condition says the index list is non-empty; False: empty; None: unrelated"""
+        t_ = t_.replace(" ", "")
+        for pat, val in ((r"len\((\w+)\)>0", True), (r"len\((\w+)\)>=1", True), (r"0<len\((\w+)\)", True), (r"0==len\((\w+)\)", False),
+                         (r"len\((\w+)\)==0", False), (r"(\w+)\.size>0", True), (r"(\w+)\.size==0", False), (r"0==(\w+)\.size", False),
+                         (r"(\w+)\.size", True), (r"len\((\w+)\)", True)):
+            import re
+            if re.fullmatch(pat, t_):
+                return val if p_ else not val
+        return None
+
+    for v0, cs_, r_ in bcases:
+        v_ = BS.resolve(v0, BS.cfg.node(r_))
         if const_of(v_) == 0:
-            seen_forms.add("zero")
+            if any(empty_test(t_, p_) is False for t_, p_ in cs_):
+                seen_forms.add("zero")
             continue
         m_ = pmatch(v_, "X_[-1] + 1", {"X_"})
-        if m_ and m_[0][0] is v_ and m_[0][1]["X_"].replace(" ", "") in ("np.where(Ebandmax<emin)[0]", "np.nonzero(Ebandmax<emin)[0]", "np.flatnonzero(Ebandmax<emin)"):
-            nonempty = any((t_.replace(" ", "") in ("len(add)>0", "len(below)>0") and p_) or (t_.replace(" ", "").startswith("0==len(") and not p_) or
-                           (t_.replace(" ", "").startswith("len(") and t_.replace(" ", "").endswith(")>0") and p_) or
-                           (t_.replace(" ", "").startswith("len(") and t_.replace(" ", "").endswith(")==0") and not p_)
-                           for t_, p_, _ in BS.conditions(r_, resolve=False))
-            if nonempty:
+        if m_ and m_[0][0] is v_ and positions_below(m_[0][1]["X_"]):
+            if any(empty_test(t_, p_) is True for t_, p_ in cs_):
                 seen_forms.add("last+1")
     r5.check(okb and seen_forms == {"zero", "last+1"},
              "number of bands entirely below emin = last such index + 1", gb, gb.node,
